@@ -323,7 +323,7 @@ where
 	}
 }
 
-impl<'a, L> IntoIterator for &'a mut RetryingLockCollection<L>
+impl<'a, L: OwnedLockable> IntoIterator for &'a mut RetryingLockCollection<L>
 where
 	&'a mut L: IntoIterator,
 {
@@ -356,7 +356,7 @@ impl<T: ?Sized, L: AsRef<T>> AsRef<T> for RetryingLockCollection<L> {
 	}
 }
 
-impl<T: ?Sized, L: AsMut<T>> AsMut<T> for RetryingLockCollection<L> {
+impl<T: ?Sized, L: AsMut<T> + OwnedLockable> AsMut<T> for RetryingLockCollection<L> {
 	fn as_mut(&mut self) -> &mut T {
 		self.data.as_mut()
 	}
@@ -483,7 +483,10 @@ impl<L> RetryingLockCollection<L> {
 	/// assert_eq!(*guard, 42);
 	/// ```
 	#[must_use]
-	pub fn child_mut(&mut self) -> &mut L {
+	pub fn child_mut(&mut self) -> &mut L
+	where
+		L: OwnedLockable,
+	{
 		&mut self.data
 	}
 
@@ -829,7 +832,7 @@ where
 	}
 }
 
-impl<'a, L: 'a> RetryingLockCollection<L>
+impl<'a, L: OwnedLockable + 'a> RetryingLockCollection<L>
 where
 	&'a mut L: IntoIterator,
 {
